@@ -125,10 +125,12 @@ func runC17(c c17Case) (r vf.Result) {
 	var cur *c17Op
 	seen := map[string]int{} // transmissions seen per (type, msgID) of the current call
 	var pubcompOwed, pubcompGot int
+	var lastPubcompMid uint16
 	inbound := map[uint16]string{} // message ID of a gateway-started QoS 2 delivery -> "pubrec" / "pubcomp" awaited / "done"
 	s.Respond = func(p snref.Pkt) []snref.Pkt {
 		if p.Type == snref.PUBCOMP {
 			pubcompGot++
+			lastPubcompMid = p.MsgID
 			if inbound[p.MsgID] == "pubcomp" {
 				inbound[p.MsgID] = "done"
 			}
@@ -198,6 +200,14 @@ func runC17(c c17Case) (r vf.Result) {
 						r.Label("pubrel-after-completion")
 					}
 					r.Fail(kind, "PUBREL #%d for message ID %d got %d PUBCOMP(s), expected one\n%s", k+1, mid, pubcompGot-before, s.Dump(25))
+					return
+				}
+				if lastPubcompMid != mid {
+					kind := "pubcomp-other-message-id/first"
+					if k > 0 {
+						kind = "pubcomp-other-message-id/after-completion"
+					}
+					r.Fail(kind, "PUBREL #%d for message ID %d was answered with PUBCOMP for message ID %d\n%s", k+1, mid, lastPubcompMid, s.Dump(25))
 					return
 				}
 			}
